@@ -517,11 +517,14 @@ class Path:
 class Interp:
     MAX_STEPS = 200000
 
-    def __init__(self, program, domain, max_paths=256):
+    def __init__(self, program, domain, max_paths=256, stubs=None):
         self.p = program
         self.dom = domain
         self.max_paths = max_paths
         self.functions_run = set()
+        # stubs: {function-name suffix: python callable(interp, args) -> value}; every stub used is part of the claim
+        self.stubs = stubs or {}
+        self.stubs_used = set()
 
     # ---------------------------------------------------------------- exploration
     def explore(self, fn, make_args, max_paths=None):
@@ -573,6 +576,10 @@ class Interp:
 
     # ---------------------------------------------------------------- calls
     def call_function(self, f, args):
+        for key, fn in self.stubs.items():
+            if f.name == key or f.name.endswith("::" + key):
+                self.stubs_used.add(key)
+                return fn(self, args)
         self.functions_run.add(f.name)
         frame = {}
         for (n, _), a in zip(f.params, args):
